@@ -17,7 +17,7 @@ import rs2lean  # noqa: E402
 
 REPO = os.environ.get("JBK_REPO", "/repo")
 HERE = os.path.dirname(os.path.abspath(__file__))
-OUT = os.path.normpath(os.path.join(HERE, "..", "lean", "JubakoModel", "Generated", "Funcs.lean"))
+OUT = os.environ.get("JBK_FUNCS_OUT") or os.path.normpath(os.path.join(HERE, "..", "lean", "JubakoModel", "Generated", "Funcs.lean"))
 PINNED = os.path.join(HERE, "funcs_pinned.json")
 
 N = "Nat"
@@ -83,6 +83,15 @@ TARGETS = [
                   exprs={"self.source.read(&buf[..size])": "size", "self.source.read(buf)": "bufLen", "buf.len()": "bufLen",
                          "Ok(read_size)": "(read_size, zeroed)"},
                   effects={"buf[..size].fill(0)": "let zeroed := true"})),
+    # ---- cluster tail: the sequence of (value, width) writes after the cluster header
+    dict(name="clusterTailWrites", file="src/creator/content_pack/clusterwriter.rs", fn="serialize_cluster_tail",
+         cfg=dict(params=[("compression", N), ("nblobs", N), ("dataSize", N), ("offsets", "List Nat"), ("raw_data_size", N)],
+                  ret="(Nat × Nat × Nat) × List (Nat × Nat)", writes=True, no_loops=True,
+                  prelude="let out : List (Nat × Nat) := []", prelude_scope=["out"],
+                  exprs={"cluster.data_size()": "dataSize", "cluster.offsets.len()": "nblobs", "Ok(())": "(cluster_header, out)"},
+                  funcs={"needed_bytes": "((Generated.neededBytes {0}).getD 0)", "ClusterHeader::new": "({0}, {1}, {2})"},
+                  serializes={"cluster_header": "[]"},
+                  iters={"&cluster.offsets[..cluster.offsets.len() - 1]": "offsets.dropLast"})),
 ]
 
 
